@@ -18,7 +18,7 @@ def depth(tier):
 
 
 def units(tier, seed):
-    us = [("arches", None)]
+    us = [("arches", None), ("exotic", None)]
     for b in ("rpms", "modules", "extra"):
         d = depth(tier) + (1 if b == "extra" else 0)
         if b == "rpms" and tier == "thorough":
@@ -32,8 +32,48 @@ def units(tier, seed):
     return us
 
 
+def exotic_ops():
+    """add calls whose values are not JSON numbers/strings: accepted by add() (which stores them as given); such a manifest is
+    either refused by the writer or must come back exactly as built - it may never be written as something else"""
+    import decimal
+    return [("extra", ["extra", "Server", "x86_64", "Server/x86_64/os/GPL", decimal.Decimal("18092"), {"sha256": "a" * 64}]),
+            ("extra", ["extra", "Server", "x86_64", "Server/x86_64/os/GPL", 18092, {"sha256": b"abcdef"}]),
+            ("extra", ["extra", "Server", "x86_64", "Server/x86_64/os/GPL", 1.5, {"sha256": "a" * 64}]),
+            ("rpms", ["rpms", "Server", "x86_64", "bash-0:4.3-1.fc23.x86_64", b"p/bash.rpm", None, "binary", H.BASH_SRC]),
+            ("modules", ["modules", "Server", "x86_64", "perl:5.26", "tag", "p/perl.yaml", "binary", ("perl-0:5.26-1.x86_64",)]),
+            ("modules", ["modules", "Server", "x86_64", "perl:5.26", "tag", "p/perl.yaml", "binary", [b"perl-0:5.26-1.x86_64"]])]
+
+
+def eval_exotic(i):
+    import copy
+    builder, op = exotic_ops()[i]
+    b = H.BUILDERS[builder]
+    obj = H.misc.set_compose(b["new"]())
+    r = H.call(obj.add, *copy.deepcopy(op[1:]))
+    if r[0] != "ok":
+        return {"add": "refused"}
+    w = H.call(obj.dumps)
+    if w[0] != "ok":
+        return {"add": "ok", "write": "refused"}
+    back = b["new"]()
+    r = H.call(back.loads, w[1])
+    same = r[0] == "ok" and getattr(back, b["attr"]) == getattr(obj, b["attr"])
+    return {"add": "ok", "write": "ok", "read_back_equal": bool(same)}
+
+
 def run_unit(unit, acc):
     builder, hists = unit
+    if builder == "exotic":
+        for i, (b, op) in enumerate(exotic_ops()):
+            o = eval_exotic(i)
+            acc.ev()
+            if o.get("write") == "ok" and not o["read_back_equal"]:
+                acc.violation("cycle:exotic-value", {"kind": "exotic", "i": i}, o,
+                              "%s manifest built by add%r was written although the file format cannot hold that value, and is read back as something else"
+                              % (b, tuple(op[1:]),))
+            else:
+                acc.outcome("exotic:" + ("refused" if o.get("write") != "ok" else "exact"))
+        return
     if builder == "arches":
         from mc.models import ids
         for arch in ids.BINARY_ARCHES_DOC:
@@ -88,6 +128,8 @@ def run_unit(unit, acc):
 
 
 def replay(case):
+    if case.get("kind") == "exotic":
+        return eval_exotic(case["i"])
     return H.replay(case)
 
 
